@@ -45,7 +45,7 @@ using namespace sim;
 // ---- sanitizer defaults (non-inline so they are emitted) -------------------
 extern "C" {
 __attribute__((used, visibility("default"))) const char* __asan_default_options() {
-  return "exitcode=77:detect_leaks=0:abort_on_error=0:handle_sigfpe=1:handle_segv=1:"
+  return "exitcode=77:detect_leaks=1:leak_check_at_exit=0:abort_on_error=0:handle_sigfpe=1:handle_segv=1:"
          "detect_stack_use_after_return=0:allocator_may_return_null=1:max_allocation_size_mb=512:"
          "print_summary=1:symbolize=1:detect_odr_violation=0";
 }
